@@ -944,6 +944,22 @@ func (c *Ctx) evalCall(e *Expr, env *Env) *Val {
 		}
 		c.specErr("len of %s", e.Args[0])
 		return nil
+	case "samearray", "sliceoff":
+		// samearray(a, b): the two slices share their backing array; sliceoff(a, b): how many
+		// elements after b's first element a's first element lies (meaningful when they share
+		// the array): a == b[sliceoff(a,b) : sliceoff(a,b)+len(a)]
+		a, b := arg(0), arg(1)
+		if a == nil || b == nil {
+			return nil
+		}
+		if a.K != VSlice || b.K != VSlice {
+			c.specErr("%s wants two slices", e.Name)
+			return nil
+		}
+		if e.Name == "samearray" {
+			return &Val{K: VScalar, T: types.Typ[types.Bool], S: sEq(a.Arr, b.Arr)}
+		}
+		return &Val{K: VScalar, T: types.Typ[types.Int], S: c.idxSub(a.Off, b.Off)}
 	case "ite":
 		cnd, a, b := arg(0), arg(1), arg(2)
 		if cnd == nil || a == nil || b == nil {
